@@ -73,7 +73,9 @@ SkipNodes(c) ==
          {"fn", "struct", "enum", "union", "impl", "trait", "mod", "const", "static", "type", "use",
           "externcrate", "macrodef", "foreign", "field", "variant", "fn_ml", "struct_ml", "impl_ml",
           \* the attribute as an inner attribute of the node's own body
-          "fn_inner", "impl_inner", "trait_inner", "mod_inner", "foreign_inner"}
+          "fn_inner", "impl_inner", "trait_inner", "mod_inner", "foreign_inner",
+          \* a skipped declaration directly after an unskipped one of the same kind
+          "use_after", "externcrate_after"}
     [] c \in {"impl", "trait"} -> {"afn", "aconst", "atype", "afn_ml", "afn_inner"}
     [] c = "letd" -> {}
     [] OTHER -> {"let", "exprstmt", "macstmt", "arm", "litfield", "expr", "fn", "struct", "let_ml", "arm_ml",
